@@ -18,10 +18,10 @@ def _one(sc):
         r = appsim.run_real(sc, wall_s=sc.get("wall_s", 15.0))
         return {"trace": r.trace, "alive": r.alive, "leaked": r.leaked, "outcome": list(r.outcome),
                 "abort": r.abort, "stalls": len(r.select_stalls), "badframes": len(r.badframes),
-                "live_max": r.live_max, "wall": time.time() - t0}
+                "live_max": r.live_max, "lines": r.lines, "fired_at": r.fired_at, "wall": time.time() - t0}
     except BaseException as e:  # noqa  (a crash of the harness itself is reported as a case, not hidden)
         return {"trace": "", "alive": [], "leaked": [], "outcome": ["harness-error", repr(e)], "abort": "harness",
-                "stalls": 0, "badframes": 0, "live_max": 0, "wall": time.time() - t0}
+                "stalls": 0, "badframes": 0, "live_max": 0, "lines": 0, "fired_at": None, "wall": time.time() - t0}
 
 
 def run_real_many(scs, jobs=None):
@@ -73,7 +73,7 @@ def evaluate(ctx, prop, scs, exact_of=lambda sc: False, cls_of=lambda sc: "scena
                         f"outcome={r['outcome']} abort={r['abort']}", size=size_of(sc))
         if model:
             pm = appsim.project_model(m)
-            if pm != r["trace"]:
+            if pm != appsim.project(r["trace"]):
                 ctx.diverge("m-app", sc, pm, r["trace"])
             ctx.traces_vs_impl += 1
         if s.startswith("bad-"):
